@@ -31,6 +31,48 @@ def run(ctx: Ctx):
     model = ctx.model
     from .common_node import names_resolve
     names_resolve(ctx, "C09-RN")
+    # ---------------- R7 what the application cannot send the node does not send for it ----------
+    # A handler whose send_answer fails with NotRoutable (the connection is DISCONNECTING after a
+    # DPR, or CLOSING) raises; the dispatcher's catch-all answers failed requests with 5012 - for
+    # an application request only while the connection is still ready
+    from .recvmsg import RecvModel
+    from ..atoms import must_facts as _mf
+    R_ = RecvModel(ctx)
+    peer_mod_ = model.module("node.peer")
+    READY_ = frozenset(model.fold_name(peer_mod_, "PEER_READY_STATES"))
+    BASE_ = {R_.code("CMD_CAPABILITIES_EXCHANGE"), R_.code("CMD_DEVICE_WATCHDOG"), R_.code("CMD_DISCONNECT_PEER")}
+    ctx.rule("C09-R7", "the 5012 of the dispatcher's error handler is sent for an application request "
+                       "only while its connection is ready", floor=1)
+    hsends = [n for n in R_.sends if any(h in R_.g.reach([h]) and n in R_.g.reach([h]) for h in R_.handlers)]
+    cons7 = "_receive_message:handler-5012#ready-only"
+    ctx.inst(cons7, rule="C09-R7", sample=[R_.g.loc(n) for n in hsends])
+    # (a handler that does not send through send_message itself is the business of C09-R6)
+    for n in hsends:
+        fx = _mf(R_.g, R_.at, n)
+        ready = any(f_[0] == f"{R_.conn}.state" and f_[1] == "in" and f_[3] is True
+                    and set(f_[2] if isinstance(f_[2], (set, frozenset, tuple, list)) else ()) <= set(READY_)
+                    for f_ in fx)
+        base = any(f_[0] == R_.cmd and f_[1] == "in" and f_[3] is True
+                   and set(f_[2] if isinstance(f_[2], (set, frozenset, tuple, list)) else ()) <= BASE_ for f_ in fx)
+        # the guard is written as an early return under `cmd not in BASE and state not in READY`:
+        # on the path to the send at least one of the two is known to be false, which must-facts
+        # cannot express as one atom - so look for the guard itself
+        guard = False
+        for t in ast.walk(R_.f.node):
+            if isinstance(t, ast.If) and t.body and isinstance(t.body[-1], ast.Return):
+                tt = ast.unparse(t.test)
+                if f"{R_.conn}.state not in PEER_READY_STATES" in tt and "command_code not in" in tt:
+                    gn = [x for x in R_.g.nodes if x.kind == "stmt" and x.ast is t.body[-1]]
+                    if gn and not R_.g.can_reach(n, gn[0]):
+                        guard = any(h in R_.g.nodes and gn[0] in R_.g.reach([h]) for h in R_.handlers)
+        if not (ready or base or guard):
+            ctx.fail(cons7, R_.g.loc(n), "the error handler answers 5012 whatever the state of the connection: "
+                     "when an application's own answer was refused with NotRoutable (the peer has sent a "
+                     "DPR, the node is shutting the connection down) and the handler raises, the node "
+                     "transmits an answer for that request on the connection all the same - after the "
+                     "DPA, or after its own DPR", rule="C09-R7",
+                     expected="return without sending when the request is an application request and "
+                              "conn.state is not a ready state", observed="unconditional send_message")
     from .common_node import single_transmit_gate
     single_transmit_gate(ctx, "C09-R6")
     nc = model.cls("node.node", "Node")
